@@ -115,13 +115,14 @@ var propertyConfigs = map[string]*propertyConfig{
 			"randInt32 / randInt64 / RandUniform: the result is within the mask / below the bound for every generator output.  " +
 			"Ternary sampling with a density (TernarySampler.sampleProba, the body of Read and ReadAndAdd): every value handed to the store callback is the table entry lut[j][index] of ONE index in {0,1,2} per coefficient, together with the modulus of row j, so the sampled integer is the same in every RNS row; " +
 			"in the density-1/2 path the zero / non-zero decision of coefficient i is bit i of the first N/8 bytes the generator delivers to this call and its sign is bit i of the NEXT N/8 bytes (ghost variable `draws` = bytes drawn so far, stream(k) = the k-th byte drawn; sampling.PRNG.Read is ASSUMED to deliver the next len(p) bytes of that sequence): the coefficient is a function of the generator output, hence identical for two samplers fed the same stream, and a buffer that is never filled is a violation.  " +
+			"Ternary sampling with a fixed Hamming weight (TernarySampler.sampleSparse): the index table from which positions are drawn without replacement keeps pairwise distinct entries below N (so the hw non-zero values go to hw different coefficients and the closing loop clears exactly the others), every non-zero value is lut[k][coeff+1] for ONE sign bit per draw on every RNS row, and that sign bit is bit (i & 7) of byte i>>3 of the block the generator delivered at the start of the call (draw i uses its own bit); the buffer size ceil(hw/8) is the one float expression modelled exactly (math.Ceil(float64(e)/2^k) for 0 <= e < 2^53).  " +
 			"Gaussian sampling, arbitrary-precision branch (sigma > 2^53 and bound > 2^64: the smudging distributions; GaussianSampler.read): the value handed to the store callback for row j is bigval(normInt) mod q_j for ONE big integer per coefficient (Euclidean residue: the same integer on every RNS row) and |bigval(normInt)| <= |bigval(boundInt)| (finding F22); each *big.Int / *big.Float is an object with one ghost value, math/big methods follow ASSUMED contracts.  Float64 branch: only that the callback receives the modulus of its row.  Plus the copy contracts of the samplers (what AtLevel / WithPRNG share and what they own).",
 		Assumptions: []string{
 			"sampling.PRNG.Read fills its buffer and returns no error (ASSUMED contract; the keyed XOF fails only after 2^32 bytes); encoding/binary decoding is assumed to return some uint64 / uint32",
 			"the callbacks passed by Read (`b`) and ReadAndAdd (`CRed(a+b, c)`) are closures: their bodies are not under contract; the claim is about the value they receive",
 			"math/big (Int.Mul, Add, Rsh, Mod, Rem, Cmp, CmpAbs, Uint64; Float.SetFloat64, Float.Int: value unknown), bignum.NewInt and bignum.RandInt follow ASSUMED contracts stating their documented behaviour on one ghost integer per object; allocations of such objects get increasing identities; GaussianSampler.normFloat64 (ziggurat) is ASSUMED to return a sign bit; float expressions are opaque and float comparisons unknown booleans",
 			"TernarySampler.kysampling (Knuth-Yao walk for densities other than 1/2) is ASSUMED to return a coefficient bit and a sign bit; Ring.ModuliChain is ASSUMED to list the moduli in order; float comparisons (invDensity == 0.5) are unknown booleans, the same one for the same source text",
-			"NOT decided: uniformity and independence of the output (statistical), the float64 branch of Gaussian sampling (ziggurat, rejection test, rounding: floating point), the Knuth-Yao matrix, exact Hamming weight (sampleSparse), sign balance",
+			"NOT decided: uniformity and independence of the output (statistical), the float64 branch of Gaussian sampling (ziggurat, rejection test, rounding: floating point), the Knuth-Yao matrix, the exact count of non-zeros as a number (it follows from the distinctness invariant by counting, which is not mechanised), sign balance as a statistic",
 		},
 		Trusted: stdTrusted, Simple: copyAndLanes("C17"),
 	},
